@@ -120,7 +120,34 @@ def run(tier, seed):
         r2 = sp.bss_eval_sources(ref * c2, est * c)
         scaleok = bool(np.allclose(r2[0], sdr, atol=1e-5) and np.allclose(r2[1], sir, atol=1e-5) and np.allclose(r2[2], sar, atol=1e-5)
                        and list(r2[3]) == list(perm))
-        add({"kind": "perm", "n": nsrc, "sir": Sq, "perm": [int(p) + 1 for p in perm], "decompok": decompok, "scaleok": scaleok},
+        # the same numeric facts for the image variant (2 channels), and evaluate() as the bundle of the four functions
+        imgdecompok = imgscaleok = evalok = True
+        if it % 2 == 0 or thorough:
+            r3 = np.stack([ref, 0.6 * ref + 0.05 * g.randn(nsrc, Ls)], axis=2)
+            e3 = np.stack([est, 0.6 * est + 0.05 * g.randn(nsrc, Ls)], axis=2)
+            comp = sp._bss_decomp_mtifilt_images(r3, np.reshape(e3[0], (Ls, 2), order="F"), 0, 512)
+            tot3 = comp[0] + comp[1] + comp[2] + comp[3]
+            imgdecompok = bool(np.allclose(tot3[:, :Ls], e3[0].T, atol=1e-8 * max(1.0, np.abs(e3[0]).max())) and np.allclose(tot3[:, Ls:], 0, atol=1e-8))
+            oi = sp.bss_eval_images(r3, e3)
+            # images: SIR and SAR are invariant to independent rescaling of every source; SDR and ISR measure gain
+            # (spatial) distortion by definition and are invariant only to a COMMON factor (named deviation, DESIGN.md 11)
+            oi2 = sp.bss_eval_images(r3 * c2[:, :, None], e3 * c[:, :, None])
+            oi3 = sp.bss_eval_images(r3 * 2.5, e3 * 2.5)
+            imgscaleok = bool(all(np.allclose(a, b, atol=1e-5) for a, b in zip(oi[2:4], oi2[2:4])) and list(oi[4]) == list(oi2[4])
+                              and all(np.allclose(a, b, atol=1e-5) for a, b in zip(oi[:4], oi3[:4])) and list(oi[4]) == list(oi3[4]))
+            if nsrc == 2:
+                d = sp.evaluate(ref, est)
+                keys = ["Images - Source to Distortion", "Images - Image to Spatial", "Images - Source to Interference", "Images - Source to Artifact",
+                        "Images - Source permutation", "Images Frames - Source to Distortion", "Images Frames - Image to Spatial",
+                        "Images Frames - Source to Interference", "Images Frames - Source to Artifact", "Images Frames - Source permutation",
+                        "Sources Frames - Source to Distortion", "Sources Frames - Source to Interference", "Sources Frames - Source to Artifact",
+                        "Sources Frames - Source permutation", "Sources - Source to Distortion", "Sources - Source to Interference",
+                        "Sources - Source to Artifact", "Sources - Source permutation"]
+                direct = [x.tolist() for x in sp.bss_eval_images(ref, est)] + [x.tolist() for x in sp.bss_eval_images_framewise(ref, est)] + \
+                         [np.asarray(x).tolist() for x in sp.bss_eval_sources_framewise(ref, est)] + [x.tolist() for x in sp.bss_eval_sources(ref, est)]
+                evalok = bool(list(d.keys()) == keys and json.dumps(list(d.values())) == json.dumps(direct))
+        add({"kind": "perm", "n": nsrc, "sir": Sq, "perm": [int(p) + 1 for p in perm], "decompok": decompok, "scaleok": scaleok,
+             "imgdecompok": imgdecompok, "imgscaleok": imgscaleok, "evalok": evalok},
             {"what": "perm", "nsrc": nsrc, "true_order": order, "sir": S.tolist(), "perm": [int(p) for p in perm]})
         pi = list(rng.choice([p for p in itertools.permutations(range(nsrc))]))
         perm2 = sp.bss_eval_sources(ref, est[pi])[3]
@@ -144,7 +171,8 @@ def run(tier, seed):
             out = fn(np.array([]), np.array([]))
             add({"kind": "empty", "images": images, "arity": len(out)}, {"what": "empty input", "fn": fn.__name__})
     full = {"kind": "", "L": 0, "window": 1, "hop": 1, "refs": [], "ests": [], "images": False, "exc": "ok", "arity": 0, "cols": 0, "nan": [],
-            "sliceeq": True, "fallbackeq": True, "n": 0, "sir": [], "perm": [], "decompok": True, "scaleok": True, "pi": [], "perm2": [], "minsdr": 0}
+            "sliceeq": True, "fallbackeq": True, "n": 0, "sir": [], "perm": [], "decompok": True, "scaleok": True, "imgdecompok": True,
+            "imgscaleok": True, "evalok": True, "pi": [], "perm2": [], "minsdr": 0}
     payload = [dict(full, **e) for e in events]
     rejects, st = trace.validate_par("Trace_C19", payload)
     ev.tlc("Trace_C19", st, "verdicts on recorded separation outcomes")
